@@ -234,12 +234,16 @@ Definition spec_iso_hz : list N :=
   [96000; 88200; 64000; 48000; 44100; 32000; 24000; 22050; 16000; 12000; 11025; 8000; 7350].
 
 (* ---- harness interface (see harness/C11/c11_test.go for the case formats) ---- *)
+(* errors are observed without their code: the wording / kind of an error is not constrained by
+   the property; what the failed call leaves behind is *)
+Definition s_err0 : sx := SL [SZ 1].
+
 Definition s_asc (a : asc) : list sx := [sN (aobj a); sN (asr a); sN (ach a)].
 
 Definition obs_dec (r : asc * res (bytes * bytes)) : sx :=
   match r with
   | (a, Ok (raw, rest)) => SL (SZ 0 :: SB raw :: SB rest :: s_asc a)
-  | (a, Err e) => SL (SZ 1 :: sN e :: s_asc a)
+  | (a, Err e) => SL (SZ 1 :: s_asc a)
   | (_, Panic _) => s_panic
   end.
 
@@ -252,7 +256,7 @@ Definition obs_asc2 (hi lo : N) : sx :=
       | Ok [b0; b1] => SL (SZ 1 :: s_asc a ++ [sN b0; sN b1])
       | _ => SL (SZ 1 :: s_asc a ++ [SZ 0; SZ 0])
       end
-  | (_, Err e) => SL [SZ 0; sN e]
+  | (_, Err _) => SL [SZ 0]
   | (_, Panic _) => s_panic
   end.
 
@@ -283,10 +287,10 @@ Fixpoint p_adts_ops (l : list sx) : option (list adts_op) :=
 Definition obs_out (o : adts_out) : sx :=
   match o with
   | OutSet a (Ok _) => SL (SZ 0 :: s_asc a)
-  | OutSet a (Err e) => SL (SZ 1 :: sN e :: s_asc a)
+  | OutSet a (Err e) => SL (SZ 1 :: s_asc a)
   | OutSet _ (Panic _) => s_panic
   | OutEnc (Ok f) => s_ok [SB f]
-  | OutEnc (Err e) => s_err e
+  | OutEnc (Err e) => s_err0
   | OutEnc (Panic _) => s_panic
   | OutDec a r => obs_dec (a, r)
   | OutAssign a => SL (SZ 0 :: s_asc a)
@@ -325,14 +329,14 @@ Definition run_c11 (c : sx) : sx :=
   | SL [SZ 1; SZ o; SZ sr; SZ ch; SB raw] =>
       match adts_encode (mk_asc (Z.to_N o) (Z.to_N sr) (Z.to_N ch)) raw with
       | Ok adts => s_ok [SB adts; obs_dec (adts_decode asc0 adts)]
-      | Err e => s_err e
+      | Err e => s_err0
       | Panic _ => s_panic
       end
   | SL [SZ 2; SB data] => obs_dec (adts_decode asc0 data)
   | SL [SZ 3; SB data] =>
       match adts_stream (S (length data)) asc0 data [] with
       | (fs, a, Ok _) => SL [SL (map obs_frame fs); SL [SZ 0]]
-      | (fs, a, Err e) => SL [SL (map obs_frame fs); SL (SZ 1 :: sN e :: s_asc a)]
+      | (fs, a, Err e) => SL [SL (map obs_frame fs); SL (SZ 1 :: s_asc a)]
       | (fs, a, Panic _) => SL [SL (map obs_frame fs); s_panic]
       end
   | SL [SZ 4; SB data] =>
@@ -342,14 +346,14 @@ Definition run_c11 (c : sx) : sx :=
           | Ok b => SL (SZ 0 :: s_asc a ++ [SB b])
           | _ => bad_case
           end
-      | (a, Err e) => SL (SZ 1 :: sN e :: s_asc a)
+      | (a, Err e) => SL (SZ 1 :: s_asc a)
       | (_, Panic _) => s_panic
       end
   | SL [SZ 5; SZ hi] => SL (sweep_lo (Z.to_N hi) 256 0)
   | SL [SZ 6; SZ o; SZ sr; SZ ch] =>
       match asc_marshal (mk_asc (Z.to_N o) (Z.to_N sr) (Z.to_N ch)) with
       | Ok b => s_ok [SB b]
-      | Err e => s_err e
+      | Err e => s_err0
       | Panic _ => s_panic
       end
   | SL [SZ 7; SZ v] =>
@@ -364,10 +368,10 @@ Definition run_c11 (c : sx) : sx :=
       match asc_unmarshal asc0 cfg with
       | (_, Panic _) => s_panic
       | (a, r) =>
-          let set := match r with Ok _ => SL (SZ 0 :: s_asc a) | Err e => SL (SZ 1 :: sN e :: s_asc a) | Panic _ => s_panic end in
+          let set := match r with Ok _ => SL (SZ 0 :: s_asc a) | Err e => SL (SZ 1 :: s_asc a) | Panic _ => s_panic end in
           match adts_encode a raw with
           | Ok adts => SL [set; s_ok [SB adts; obs_dec (adts_decode a adts)]]
-          | Err e => SL [set; s_err e]
+          | Err e => SL [set; s_err0]
           | Panic _ => s_panic
           end
       end
@@ -378,7 +382,7 @@ Definition run_c11 (c : sx) : sx :=
           let data := firstn (length whole - Z.to_nat cut) whole ++ extra in
           match adts_stream (S (length data)) asc0 data [] with
           | (out, a, Ok _) => SL [sN (lenN data); SL (map obs_frame_sum out); SL [SZ 0]]
-          | (out, a, Err e) => SL [sN (lenN data); SL (map obs_frame_sum out); SL (SZ 1 :: sN e :: s_asc a)]
+          | (out, a, Err e) => SL [sN (lenN data); SL (map obs_frame_sum out); SL (SZ 1 :: s_asc a)]
           | (out, a, Panic _) => SL [sN (lenN data); SL (map obs_frame_sum out); s_panic]
           end
       | None => bad_case
